@@ -78,7 +78,7 @@ C18-5 e_owned_load1
 C20-1 u_error_syntax_n6
 C20-2 m_object_iter_latch
 C20-3 k_position_from_index_n8
-C20-4 m_stream_latch_n5
+C20-4 m_stream_latch_any_outcome
 C20-5 u_error_classify
 revert-F1a m_depth_seq
 revert-F1b m_skip_one_dispatch_n7
